@@ -2,6 +2,7 @@ package c16
 
 import (
 	"encoding/hex"
+	"os"
 
 	"verif/harness/vk"
 )
@@ -44,6 +45,31 @@ func replayWire(r *vk.Run, c map[string]any) (bool, error) {
 		return true, nil
 	case "stfully":
 		caseReadFully(r, hexList(c["chunks"]), c["final"].(bool), "replay")
+		return true, nil
+	case "otentry", "otparams", "otnode", "otts", "otahopen", "otahdata":
+		in, err := hex.DecodeString(c["in"].(string))
+		if err != nil {
+			return true, err
+		}
+		dir, err := os.MkdirTemp("", "vh-c16-otreplay")
+		if err != nil {
+			return true, err
+		}
+		defer os.RemoveAll(dir)
+		switch c["kind"] {
+		case "otentry":
+			caseOtEntry(r, in, "replay")
+		case "otparams":
+			caseOtParams(r, in, dir, "replay")
+		case "otnode":
+			caseOtNode(r, in, int(c["off"].(float64)), "replay")
+		case "otts":
+			caseOtTs(r, in, dir, "replay")
+		case "otahopen":
+			caseOtAhOpen(r, int(c["n"].(float64)), in, int64(c["pfile"].(float64)), int64(c["dfile"].(float64)), "replay")
+		case "otahdata":
+			caseOtAhData(r, in, int(c["plog"].(float64)), "replay")
+		}
 		return true, nil
 	}
 	return false, nil
